@@ -439,6 +439,7 @@ func checkC10(a *checkArgs, r *Result) error {
 	}
 	wg.Wait()
 	multiFileRuns(r, gxz)
+	stdoutFailureRuns(r, gxz)
 	r.Extra["scenarios"] = len(scs)
 	r.Extra["driver_requests"] = dp.Requests()
 	return nil
@@ -539,6 +540,68 @@ func multiFileRuns(r *Result, gxz string) {
 								r.Violate("counterexample", "multi-file temporary file left", cs, "temporary file "+e.Name()+" left behind")
 							}
 						}
+					}
+					os.RemoveAll(dir)
+				}
+			}
+		}
+	}
+}
+
+// stdoutFailureRuns: -c / filter mode with a standard output that refuses every byte (/dev/full): the run must exit
+// non-zero whatever the size of the output (small outputs reach the descriptor only in the final flush), and the input
+// must be left untouched.
+func stdoutFailureRuns(r *Result, gxz string) {
+	full, err := os.OpenFile("/dev/full", os.O_WRONLY, 0)
+	if err != nil {
+		return
+	}
+	full.Close()
+	for _, mode := range []string{"compress", "decompress"} {
+		for _, format := range []string{"xz", "lzma"} {
+			for _, size := range []int{0, 10, 3000, 200000} {
+				for _, stdin := range []bool{false, true} {
+					dir, err := os.MkdirTemp("", "gxzfull")
+					if err != nil {
+						return
+					}
+					payload := genText(rand.New(rand.NewSource(int64(size))), size)
+					in := payload
+					name := "f.dat"
+					args := []string{"-c", "-F", format}
+					if mode == "decompress" {
+						in = compressWith(format, payload)
+						name = "f.dat." + format
+						args = append(args, "-d")
+					}
+					os.WriteFile(filepath.Join(dir, name), in, 0o644)
+					cmd := exec.Command(gxz)
+					if stdin {
+						f, _ := os.Open(filepath.Join(dir, name))
+						cmd.Stdin = f
+						cmd.Args = append([]string{gxz}, args[1:]...) // filter mode: no -c needed
+						defer f.Close()
+					} else {
+						cmd.Args = append(append([]string{gxz}, args...), name)
+					}
+					out, _ := os.OpenFile("/dev/full", os.O_WRONLY, 0)
+					cmd.Stdout = out
+					cmd.Dir = dir
+					cmd.Run()
+					out.Close()
+					code := cmd.ProcessState.ExitCode()
+					cs := gxzMultiCase{Op: "gxz-stdout-full", Mode: mode, Format: format, Files: []string{name}, Why: fmt.Sprintf("stdout=/dev/full size=%d stdin=%v", size, stdin)}
+					r.Count(fmt.Sprint("full", mode, format, size, stdin), true)
+					r.Inc("stdout_failure_runs")
+					// an empty compressed/decompressed output still has bytes to write when compressing; decompressing
+					// an empty payload writes nothing, so success is legitimate there
+					wantFail := !(mode == "decompress" && size == 0)
+					if wantFail && code == 0 {
+						r.Violate("counterexample", fmt.Sprintf("stdout-write-failure exit status 0 (%s %s size=%d stdin=%v)", mode, format, size, stdin), cs,
+							"every write to standard output failed (ENOSPC) but gxz exited with status 0")
+					}
+					if got, err := os.ReadFile(filepath.Join(dir, name)); err != nil || !bytes.Equal(got, in) {
+						r.Violate("counterexample", "stdout-write-failure input not left untouched", cs, "the input file was removed or changed although the output could not be written")
 					}
 					os.RemoveAll(dir)
 				}
